@@ -6,7 +6,7 @@ import re
 import subprocess
 
 from common import standard_prologue, run_hx, run_drv, enc, dec, OKANE, VERIF
-from impcommon import (sx_parse, sx_str, sx_find, opt, docs_yaml, doc_sx, rule_sx, entry_sx, conv_sx, BASE_DOC, ENCODINGS)
+from imp1517 import (sx_parse, sx_str, sx_find, opt, docs_yaml, doc_sx, rule_sx, entry_sx, conv_sx, BASE_DOC, ENCODINGS)
 
 CLAIM = {
     "technique": "Lean 4 theorems about a model of ConfigSet::select / ConfigFragment::merge and of the Extractor rule fold "
@@ -513,6 +513,8 @@ def run_binary(chk, nfiles, rows):
     chk.streams["okane-import-binary"] = 0
     for fi in range(nfiles):
         rules = gen_rules(chk.rng, "csv", False)
+        for r_ in rules:
+            r_.pop("conversion", None)       # conversions need rate columns; they are C16's subject
         outer = {"path": "e2e/", "encoding": "UTF-8", "account_type": "asset", "commodity": "CHF",
                  "rewrite": rules[:len(rules) // 2]}
         inner = {"path": "e2e/stmt%d.csv" % fi, "account": "Assets:Bank",
